@@ -1,0 +1,58 @@
+//go:build verif
+
+// Contracts for package coraza (WAF construction), checked by /verif/govc (comment-only file; no code).
+// Trusted specs: /verif/specs/wafconfig.spec.
+package coraza
+
+// wafOf(x): the internal WAF behind the public WAF value NewWAF returns (dynamic type wafWrapper).
+//@ define wafOf(x WAF) *corazawaf.WAF := payload(x, "wafWrapper").waf
+
+// NewWAF (C02, C10). For EVERY configuration (any sequence of rules, directive strings and files -- the loop is
+// abstracted by havoc of everything it may write, i.e. the whole WAF configuration -- and any combination of the
+// WithXxx options):
+//  detectionOnlyRequest / detectionOnlyResponse: when NewWAF succeeds and the engine mode is DetectionOnly, both body
+//      limit actions are ProcessPartial, so a body over the limit is never rejected (413 / 500) in DetectionOnly;
+//  validated: the WAF handed out satisfies every condition Validate documents (LimitsOK, corazawaf).
+//@ func NewWAF props C02,C10,C07
+//@   requires cfg: typeof(config) == tag("*wafConfig") && payload(config, "*wafConfig") != nil
+//@   ensures wrapped: isnil(result1) ==> typeof(result0) == tag("wafWrapper") && wafOf(result0) != nil
+//@   ensures detectionOnlyRequest: isnil(result1) && wafOf(result0).RuleEngine == types.RuleEngineDetectionOnly ==>
+//@       wafOf(result0).RequestBodyLimitAction == types.BodyLimitActionProcessPartial
+//@   ensures detectionOnlyResponse: isnil(result1) && wafOf(result0).RuleEngine == types.RuleEngineDetectionOnly ==>
+//@       wafOf(result0).ResponseBodyLimitAction == types.BodyLimitActionProcessPartial
+//@   ensures validated: isnil(result1) ==> LimitsOK(wafOf(result0))
+//@   ensures failedGivesNil: !isnil(result1) ==> isnil(result0)
+// the WithXxx options are applied after the directives (they win over SecRequestBodyLimit ...):
+//@   ensures optRequestBodyAccess: isnil(result1) && payload(config, "*wafConfig").requestBodyAccess ==> wafOf(result0).RequestBodyAccess
+//@   ensures optResponseBodyAccess: isnil(result1) && payload(config, "*wafConfig").responseBodyAccess ==> wafOf(result0).ResponseBodyAccess
+//@   ensures optRequestBodyLimit: isnil(result1) && payload(config, "*wafConfig").requestBodyLimit != nil ==>
+//@       wafOf(result0).RequestBodyLimit == deref(payload(config, "*wafConfig").requestBodyLimit)
+//@   ensures optResponseBodyLimit: isnil(result1) && payload(config, "*wafConfig").responseBodyLimit != nil ==>
+//@       wafOf(result0).ResponseBodyLimit == deref(payload(config, "*wafConfig").responseBodyLimit)
+//@   ensures optInMemoryLimit: isnil(result1) && payload(config, "*wafConfig").requestBodyInMemoryLimit != nil ==>
+//@       wafOf(result0).requestBodyInMemoryLimit != nil &&
+//@       deref(wafOf(result0).requestBodyInMemoryLimit) == deref(payload(config, "*wafConfig").requestBodyInMemoryLimit)
+
+// ---------------------------------------------------------------- NewTransaction* (C05)
+
+// Every option of the public NewTransaction / NewTransactionWithID path reaches corazawaf's newTransaction unchanged
+// (the id only trimmed, as documented by the code; the context is context.Background()). noLockHeld: the sequential
+// view required by corazawaf's NewTransaction* (the id generator takes a package-level mutex).
+//@ func (wafWrapper).NewTransactionWithID props C05,C07
+//@   requires wrapper: w.waf != nil && !isnil(w.waf.Logger)
+//@   requires noLockHeld: NoLockHeld()
+//@   at call "w.waf.NewTransactionWithOptions(" requires sameWAF: arg(0) == w.waf
+//@   at call "w.waf.NewTransactionWithOptions(" requires idTrimmed: arg(1).ID == trimSpace(old(id))
+//@   at call "w.waf.NewTransactionWithOptions(" requires backgroundContext: arg(1).Context == ctxBackground()
+
+//@ func (wafWrapper).NewTransactionWithOptions props C05,C07
+//@   requires wrapper: w.waf != nil
+//@   requires noLockHeld: NoLockHeld()
+//@   at call "w.waf.NewTransactionWithOptions(" requires sameWAF: arg(0) == w.waf
+//@   at call "w.waf.NewTransactionWithOptions(" requires sameID: arg(1).ID == opts.ID
+//@   at call "w.waf.NewTransactionWithOptions(" requires sameContext: arg(1).Context == opts.Context
+
+//@ func (wafWrapper).NewTransaction props C05,C07
+//@   requires wrapper: w.waf != nil
+//@   requires noLockHeld: NoLockHeld()
+//@   at call "w.waf.NewTransaction(" requires sameWAF: arg(0) == w.waf
